@@ -185,13 +185,12 @@ def seq_plans(tier):
                 ('random', ['--prim', 'seqrand', '--execs', 15000])]
     return [('top_S3_len3', ['--prim', 'seq', '--S', 3, '--len', 3, '--top', 1]),
             ('top_S3_len4_lock', ['--prim', 'seq', '--S', 3, '--len', 4, '--top', 1, '--alpha', 'lock']),
-            ('top_S2_len4', ['--prim', 'seq', '--S', 2, '--len', 4, '--top', 1]),
             ('top_S7_len2', ['--prim', 'seq', '--S', 7, '--len', 2, '--top', 1]),
             ('top_S7_len3_handle', ['--prim', 'seq', '--S', 7, '--len', 3, '--top', 1, '--alpha', 'handle']),
             ('top_S4_len3', ['--prim', 'seq', '--S', 4, '--len', 3, '--top', 1]),
             ('low_S3_len3', ['--prim', 'seq', '--S', 3, '--len', 3, '--top', 0, '--base', 0]),
             ('low_S7_len2', ['--prim', 'seq', '--S', 7, '--len', 2, '--top', 0, '--base', 1099511627776]),
-            ('random', ['--prim', 'seqrand', '--execs', 200000])]
+            ('random', ['--prim', 'seqrand', '--execs', 100000])]
 
 
 def judge_rows(ctx, trace, tol, tag, chunk=30000, par=10):
@@ -249,7 +248,7 @@ def _show(row):
         return json.dumps(row)[:200]
     names = {1: 'try_lock_wait2', 2: 'try_lock_wait', 3: 'unlock(h#', 4: 'unlock', 5: 'adjust_range(h#'}
     out = []
-    for i, (k, a, b, c, res, x, y) in enumerate(row['ops']):
+    for i, (k, a, b, c, res) in enumerate(op[:5] for op in row['ops']):
         if i == row['n']:
             out.append('| epilogue:')
         if k in (1, 2):
